@@ -7,6 +7,7 @@ require (
 	github.com/blevesearch/bleve_index_api v1.4.0
 	github.com/blevesearch/upsidedown_store_api v1.0.2
 	github.com/couchbase/moss v0.2.0
+	go.etcd.io/bbolt v1.4.0
 	pgregory.net/rapid v1.3.0
 )
 
@@ -35,7 +36,6 @@ require (
 	github.com/golang/snappy v1.0.0 // indirect
 	github.com/json-iterator/go v0.0.0-20171115153421-f7279a603ede // indirect
 	github.com/mschoch/smat v0.2.0 // indirect
-	go.etcd.io/bbolt v1.4.0 // indirect
 	golang.org/x/sys v0.45.0 // indirect
 	golang.org/x/text v0.37.0 // indirect
 	google.golang.org/protobuf v1.36.6 // indirect
